@@ -15,6 +15,18 @@
 (* mk.scope = "cse" is the mix-in: only CommonSubexpression nodes are      *)
 (* looked up / stored (key (expr, *args)), every other node is recomputed. *)
 (*                                                                         *)
+(* Round 2 - the HIT TEST.  `table.get(key, SENTINEL)` followed by a test  *)
+(* of the looked-up value against the sentinel decides "hit".  HitMode     *)
+(* "identity" (`is not SENTINEL`) never consults the cached value.         *)
+(* HitMode "ne" (`!= SENTINEL`) runs the cached RESULT's own comparison    *)
+(* protocol (NeProto): an object that claims to be equal to everything     *)
+(* makes the hit look like a miss (the handler runs again), an object      *)
+(* whose comparison yields a non-boolean (numpy arrays: elementwise)       *)
+(* makes the truth test raise ValueError out of the call.  "ne" is the     *)
+(* seeded design error of the negative controls C05_Gen_Buggy_HitByNe_*.   *)
+(* A raise unwinds every running handler (X with ok = FALSE, nothing is    *)
+(* stored for them).                                                       *)
+(*                                                                         *)
 (* CRec produces the result together with the events an instrumented       *)
 (* mapper would log, so that TLC can run the S-layer machine (C05_Memo)    *)
 (* on them: "the algorithm refines the memo machine".                      *)
@@ -23,39 +35,55 @@ EXTENDS C05_Memo
 
 InScope(mk, e) == mk.scope = "all" \/ e.t = "CSE"
 
-RECURSIVE CRec(_, _, _, _, _, _)
-CRec(keyMode, storeMode, st, mk, e, a) ==
-    LET ik == KeyOf(keyMode, e, a) IN
-    IF InScope(mk, e) /\ ik \in DOMAIN st.tab
-    THEN [tab |-> st.tab, evs |-> st.evs, r |-> st.tab[ik]]
+\* what `cached != SENTINEL` amounts to, by the cached value's own protocol
+NeProto(r) == IF r.rk = "obj" THEN r.eq ELSE "std"
+HitOutcome(hit, r) ==
+    IF hit = "identity" THEN "hit"
+    ELSE CASE NeProto(r) = "alleq"       -> "miss"     \* __ne__ is falsy: looks absent
+           [] NeProto(r) = "elementwise" -> "raise"    \* bool(non-boolean) raises
+           [] OTHER                      -> "hit"
+IsErr(r) == r.rk = "err"
+
+RECURSIVE CRecH(_, _, _, _, _, _, _)
+CRecH(keyMode, storeMode, hit, st, mk, e, a) ==
+    LET ik == KeyOf(keyMode, e, a)
+        ho == IF InScope(mk, e) /\ ik \in DOMAIN st.tab THEN HitOutcome(hit, st.tab[ik])
+              ELSE "miss"
+    IN
+    IF ho = "hit" THEN [tab |-> st.tab, evs |-> st.evs, r |-> st.tab[ik]]
+    ELSE IF ho = "raise" THEN [tab |-> st.tab, evs |-> st.evs, r |-> ErrR("ValueError")]
     ELSE LET k  == KeyOf("ideal", e, a)
              ks == RecKids(mk, e)
              RECURSIVE Go(_, _, _)
              Go(s, i, rs) ==
-                 IF i > Len(ks) THEN [s |-> s, rs |-> rs]
-                 ELSE LET x == CRec(keyMode, storeMode, s, mk, ks[i], a) IN
+                 IF i > Len(ks) \/ (Len(rs) > 0 /\ IsErr(rs[Len(rs)])) THEN [s |-> s, rs |-> rs]
+                 ELSE LET x == CRecH(keyMode, storeMode, hit, s, mk, ks[i], a) IN
                       Go([tab |-> x.tab, evs |-> x.evs], i + 1, Append(rs, x.r))
              s0 == [tab |-> st.tab,
                     evs |-> IF InScope(mk, e) THEN Append(st.evs, [ev |-> "H", k |-> k])
                             ELSE st.evs]
              g  == Go(s0, 1, << >>)
-             r  == Combine(mk, e, a, g.rs)
-         IN [tab |-> IF InScope(mk, e) /\ storeMode = "store" THEN (ik :> r) @@ g.s.tab
+             bad == Len(g.rs) > 0 /\ IsErr(g.rs[Len(g.rs)])
+             r  == IF bad THEN g.rs[Len(g.rs)] ELSE Combine(mk, e, a, g.rs)
+         IN [tab |-> IF InScope(mk, e) /\ storeMode = "store" /\ ~bad THEN (ik :> r) @@ g.s.tab
                      ELSE g.s.tab,
              evs |-> IF InScope(mk, e)
-                     THEN Append(g.s.evs, [ev |-> "X", k |-> k, ok |-> TRUE]) ELSE g.s.evs,
+                     THEN Append(g.s.evs, [ev |-> "X", k |-> k, ok |-> ~bad]) ELSE g.s.evs,
              r |-> r]
+CRec(keyMode, storeMode, st, mk, e, a) == CRecH(keyMode, storeMode, "identity", st, mk, e, a)
 
 TouchedKeys(mk, e, a) ==
     { KeyOf("ideal", s, a) : s \in { t \in Touched(mk, e) : InScope(mk, t) } }
 
 \* one top-level call on an instance whose table is tab: new table, the logged
 \* events including the top-level return, and the result
-TopCall(keyMode, storeMode, tab, mk, e, a) ==
-    LET x == CRec(keyMode, storeMode, [tab |-> tab, evs |-> << >>], mk, e, a)
+TopCallH(keyMode, storeMode, hit, tab, mk, e, a) ==
+    LET x == CRecH(keyMode, storeMode, hit, [tab |-> tab, evs |-> << >>], mk, e, a)
         k == KeyOf("ideal", e, a)
     IN  [tab |-> x.tab, r |-> x.r,
          evs |-> Append(x.evs,
                    IF mk.m = "walk" THEN [ev |-> "W", k |-> k, F |-> TouchedKeys(mk, e, a)]
                    ELSE [ev |-> "R", k |-> k, r |-> x.r, f |-> Fresh(mk, e, a)])]
+TopCall(keyMode, storeMode, tab, mk, e, a) ==
+    TopCallH(keyMode, storeMode, "identity", tab, mk, e, a)
 =============================================================================
